@@ -146,3 +146,11 @@ Definition tpl_condition (tpl : its) : Prop :=
     (forall h, In h R -> countZ (fun k => bonded eH tpl k h) K = countZ (fun k => bonded eG tpl k h) K) /\
     sumL dQ (filter (keepn R) (gnodes tpl)) = 0.
 
+
+(** two template atoms are bonded (on either side) to one explicit hydrogen of the template; the transfer groups of the
+    template are the classes of the closure *)
+Definition tpl_linked (tpl : its) (x y : N) : Prop := exists h, is_H_i tpl h = true /\ In x (nbrs tpl h) /\ In y (nbrs tpl h).
+Inductive tpl_group (tpl : its) : N -> N -> Prop :=
+| tg_refl x : tpl_group tpl x x
+| tg_step x y z : tpl_linked tpl x y -> tpl_group tpl y z -> tpl_group tpl x z.
+
